@@ -13,7 +13,7 @@ from vlib import common as C
 
 def gen_requests(rng, tier):
     reqs = []
-    nh, nd = (420, 260) if tier == "quick" else (4000, 2500)
+    nh, nd = (420, 260) if tier == "quick" else (12000, 8000)
     # ---- hold-out -------------------------------------------------------------------------
     sizes = [1, 2, 3, 4, 5, 7, 10, 99, 100, 101, 150, 299, 300]
     for k in range(nh):
@@ -151,11 +151,12 @@ def run(chk, replay=None):
                 if orc != "fine":
                     broken.append("harness oracle reports `%s` but the Lean step relation accepts: %s" % (orc, st[:300]))
             elif d != "n/a":
-                if orc == "fine":
-                    # the relation is the property (plus counters): a rejected step is a failing input
-                    found.append((n_ex, "%s: observed call `%s` is rejected by the Lean step relation (%s) – request "
-                                  "`%s`; step: %s" % (kind, " ".join(head), d, reqs[i], st[:600]),
-                                  {"request": reqs[i], "step": st, "driver": d}, dict(tags, clause=d)))
+                if orc == "fine" and len(broken) < 5:
+                    # the model's relation rejects a call on which the property itself (oracle) holds: the model
+                    # no longer describes the code – reported without a failing input
+                    broken.append("%s: observed call `%s` is rejected by the Lean step relation (%s) although the "
+                                  "property holds on it – request `%s`; step: %s"
+                                  % (kind, " ".join(head), d, reqs[i], st[:500]))
             if len(chk.cov["samples"]) < 4 and n_ex <= 8:
                 chk.sample({"request": reqs[i], "step": st, "oracle": orc, "driver": d})
         for n_ex, what, rep, tags in sorted(found, key=lambda x: (x[0], x[1])):
